@@ -2,12 +2,78 @@
 In the controlled scheduler every client operation is one step, so linearizability reduces to: a successful operation takes
 effect at the node the specification allows and reads return the latest acknowledged value (flags staleread / splitwrite);
 an operation answered with the retryable stale-ownership error has no effect (the recorded state must be unchanged);
-no other error class reaches a client during graceful churn."""
-import ringcheck
+no other error class reaches a client during graceful churn.
+
+"Either fails with a retryable error or takes effect": an operation must also RETURN.  ChordKV carries, per client operation, the
+set of nodes whose surrogateMu it read-locked on its way (field held); with the switch "fwdlock" (the forward to the surrogate is
+made under the lock - the code before its repair) and "stab" (stabilize rounds of the periodic task interleave with everything
+else: StabRead / StabWrite) TLC finds a behaviour in which the call chain comes back to a node it has locked (InvNoRelock): a
+stabilize round that computed its list before a join installs it after the joiner's advisory, the stale successor pointer
+routes the request back.  The stored witness (spec/witness_relock.json; thorough tier: searched again) is replayed on real nodes
+with a writer (a Leave of that node) queued between the two read locks: every operation must still return."""
+import json, os
+import vf, ringlib, ringcheck
 
 KINDS = set("staleread splitwrite client-fatal read-not-latest".split())
+RELOCK_CFG = dict(lay="Lay5b", init="{1, 2, 5}", joiners="{3, 4}", leavers="{}", maxops=1, invs="InvNoRelock")
+
+
+def relock_scenario(states, name):
+    """the witness up to the start of the client operation, then: the operation advanced gate by gate to its second arrival at the
+    node it was first handled by, a Leave of that node advanced into its critical section (it write-locks surrogateMu), then both
+    run to the end"""
+    k = next(i for i, x in enumerate(states) if x.get("ops"))
+    op = states[-1]["ops"][0]
+    entry = states[k]["ops"][0]["at"]
+    sc = ringlib.cex_to_scenario(states[:k], name, finish=False)
+    sc["gates"] = ringlib.GATES_MEMBERSHIP + ["stab:", "kv:"]
+    put = {"do": "start", "op": "c1", "kind": op["kind"], "at": "n%d" % entry, "k": "k%d" % op["k"], "v": "7"}
+    sc["steps"] += [put] + [{"do": "step", "op": "c1"}] * 4      # kv:enter@e, kv:local@e, kv:enter@surrogate, kv:enter@e, kv:local@e
+    sc["steps"] += [{"do": "start", "op": "lw", "kind": "leave", "n": "n%d" % entry}, {"do": "until", "op": "lw", "gate": "leave:locked"},
+                    {"do": "step", "op": "lw"},            # into surrogateMu.Lock(): blocks while the first read lock is held
+                    {"do": "steps", "op": "c1"}, {"do": "steps", "op": "lw"}, {"do": "steps", "op": "c1"}]
+    sc["entry"] = entry
+    return sc
+
+
+def relock_regression(ck):
+    with open(os.path.join(vf.VERIF, "spec", "witness_relock.json")) as f:
+        states = json.load(f)["states"]
+    if ck.thorough and ck.replay is None:
+        # search again: with the forward under the lock and interleaving stabilize rounds the hazard must be reachable (else the
+        # stored witness no longer belongs to the specification)
+        r = ck.tlc("MC_ChordKV", ringlib.mc_cfg(ringcheck.CODE_FIXPRED, ringcheck.CODE_FIXLEAVE, ringcheck.CODE_FIXWRAP, opkinds='{"put", "stab", "fwdlock"}', **RELOCK_CFG),
+                   allow_error=True, timeout=3000, workers=min(vf.NCPU, 12))
+        if not r.error or r.error["name"] != "InvNoRelock" or not r.trace_json:
+            raise vf.Infra("ChordKV with forward-under-lock and interleaving stabilize rounds no longer violates InvNoRelock: %s" % (r.error,))
+        states = ringlib.cex_states(r.trace_json)
+    sc = ck.replay if (ck.replay is not None and ck.replay.get("relock")) else dict(relock_scenario(states, "relock-witness"), relock=True)
+    ev = ringlib.run_scenarios(ck, [sc], timeout=600)
+    final = [e for e in ev if "ops" in e and e.get("t") != "step"]
+    steps = [e for e in ev if e.get("t") == "step"]
+    seen = [(e.get("op"), e.get("to")) for e in steps if e.get("op") in ("c1", "lw")]
+    # the replay is only meaningful if the request really came back to the node that handled it first
+    locals_ = [t for o, t in seen if o == "c1" and str(t).startswith("kv:local@")]
+    if len(locals_) < 2 or locals_[0] != locals_[1]:
+        raise vf.Infra("relock witness not reproduced on the real nodes: gates of the client operation %s" % [t for o, t in seen if o == "c1"])
+    ck.count("relock-witness", True)
+    ck.traces += 1
+    ops = final[-1]["ops"] if final else {}
+    stuck = [o for o in ("c1", "lw") if not (ops.get(o) or {}).get("done")]
+    ck.sample({"scenario": "relock-witness", "gates_of_the_request": [t for o, t in seen if o == "c1"], "gates_of_the_leave": [t for o, t in seen if o == "lw"],
+               "finished": {o: (ops.get(o) or {}).get("res") for o in ("c1", "lw")}})
+    if stuck:
+        ck.violation("C04:operation-never-returns", "the request was routed back to node n%d, which had forwarded it to its surrogate while holding surrogateMu read-locked; a Leave of "
+                     "that node queued for the write lock in between: %s never return(s) (no progress within the step limit, periodic tasks parked); gates of the request %s, of the leave %s"
+                     % (sc.get("entry", 0), " and ".join({"c1": "the KV request", "lw": "the Leave"}[o] for o in stuck), [t for o, t in seen if o == "c1"], [t for o, t in seen if o == "lw"]), sc)
+
 
 def run(ck):
+    if ck.replay is not None and ck.replay.get("relock"):
+        relock_regression(ck)
+        return
     ringcheck.engine(ck, "C04", KINDS, gen_kw=dict(n_ops=14, maint_p=0.2))
+    if ck.replay is None:
+        relock_regression(ck)
     ringcheck.finish_common(ck)
-    ck.assumptions.append("truly concurrent client histories (several goroutines inside kvMiddleware) are not yet covered by this check")
+    ck.assumptions.append("truly concurrent client histories (several goroutines inside kvMiddleware) are covered by the call-chain model (field held) and the replayed witness only")
